@@ -17,6 +17,9 @@ func init() { Families["grammar"] = func() Family { return grammarFam{} } }
 
 // RenderTokens turns a specification token sequence into source text: lexemes
 // separated by one space, or by a line feed where the token carries nl.
+var lineBreakForms = []string{"\n", "\r\n", "\r", "\u2028", "\u2029", "\u0085", "\n", " \n\t"}
+var spaceForms = []string{" ", " ", "\t", " ", "\u00a0", "  ", " ", "\u3000"}
+
 func RenderTokens(s []any) (string, error) {
 	var sb strings.Builder
 	for i, t := range s {
@@ -30,10 +33,11 @@ func RenderTokens(s []any) (string, error) {
 		if len(tt) > 2 {
 			nl, _ = tt[2].(bool)
 		}
+		// every line-terminator form and several kinds of white space, chosen by position (deterministic)
 		if nl {
-			sb.WriteString("\n")
+			sb.WriteString(lineBreakForms[(i*7+len(s)*3)%len(lineBreakForms)])
 		} else if i > 0 {
-			sb.WriteString(" ")
+			sb.WriteString(spaceForms[(i*5+len(s))%len(spaceForms)])
 		}
 		if k == "Str" {
 			b, ok := Bytes(tt[1])
